@@ -44,3 +44,19 @@ def display_specs(order, labels, odim, insertions):
         else:
             specs.append(insertion_spec(odim, by_name[str(labels[pos])]))
     return specs
+
+
+def warm(part, idxs):
+    """Read a drawn selection of OTHER public outputs first (exceptions ignored): a value
+    check then also notices outputs that disturb each other through cached intermediates."""
+    from .observe import public_lazyproperties
+    names = public_lazyproperties(type(part))
+    if idxs and idxs[0] < 0:
+        # "all": every other public output, starting at a drawn offset
+        k = (-idxs[0]) % len(names)
+        idxs = list(range(k, len(names))) + list(range(k))
+    for i in idxs or ():
+        try:
+            getattr(part, names[i % len(names)])
+        except Exception:  # noqa - availability of these outputs is not the point here
+            pass
